@@ -15,6 +15,7 @@
 
 #include <cstdint>
 #include <cstdlib>
+#include <cstring>
 
 #ifdef _MSC_VER
 #include <intrin.h>
@@ -149,12 +150,17 @@ static inline size_t popcount(const void* data, size_t size)
     size_t total = 0;
     while (begin + 7 < end)
     {
-        total += popcount(*reinterpret_cast<const std::uint64_t*>(begin));
+        // copy the word out: data need not be aligned to 8 bytes
+        std::uint64_t word;
+        std::memcpy(&word, begin, sizeof(word));
+        total += popcount(word);
         begin += 8;
     }
     if (begin + 3 < end)
     {
-        total += popcount(*reinterpret_cast<const std::uint32_t*>(begin));
+        std::uint32_t word;
+        std::memcpy(&word, begin, sizeof(word));
+        total += popcount(word);
         begin += 4;
     }
     while (begin < end)
